@@ -252,6 +252,10 @@ PROGRAMS = [
     [[b'SELECT ', ('S', b'inbox')], [b'FETCH 1 (BODY.PEEK[HEADER.FIELDS (', ('S', b'Subject'), b' ', ('S', b'To'), b')])'],
      [b'FETCH 1 BODY.PEEK[HEADER.FIELDS.NOT (', ('S', b'From'), b')]'], [b'STORE 1 +FLAGS (\\Flagged)'], [b'FETCH 1 FLAGS']],
     [[b'ID (', ('Q', b'name'), b' ', ('Q', b'cli ent'), b')'], [b'CREATE ', ('S', b'&AOk-')], [b'LIST "" *'], [b'SELECT ', ('S', b'&AOk-')]],
+    # the pattern argument of LIST / LSUB is a mailbox spelling too: the same shift sequence as atom, quoted or literal
+    [[b'CREATE ', ('S', b'&AOk-')], [b'CREATE ', ('S', b'&AOk-/&ZeVnLIqe-')], [b'SUBSCRIBE ', ('S', b'&AOk-')],
+     [b'LIST ', ('S', b''), b' ', ('S', b'&AOk-')], [b'LSUB ', ('S', b''), b' ', ('S', b'&AOk-')],
+     [b'LIST ', ('S', b'&AOk-/'), b' ', ('S', b'&ZeVnLIqe-')], [b'LIST ', ('S', b''), b' ', ('S', b'&AOk-/%')]],
     [[b'DELETE ', ('S', b'Nope')], [b'SELECT ', ('S', b'Nope')], [b'RENAME ', ('S', b'Sent'), b' ', ('S', b'INBOX')],
      [b'CREATE ', ('S', b'inbox')], [b'STATUS ', ('S', b'Nope'), b' (MESSAGES)']],
 ]
